@@ -1,8 +1,462 @@
 /-
-C12 — property theorems (stub; see DESIGN.md §6).
+C12 — Hierarchies are nested and navigable (DeepARTMAP, SMART).
+
+A hierarchy is a list of SimpleARTMAP layers (`ArtModel/Deep.lean`); layer `l+1`
+is supervised by the A-side labels of layer `l` — all of them in `fit`, those of
+the current batch in `partial_fit`.  `DeepInv layers` (`ArtProofs/Deep.lean`)
+says: every layer satisfies `MapInv` (C09) and the bookkeeping invariant
+`Consistent` (C05), and the targets stored by layer `l+1` are *exactly*
+`labels_a` of layer `l`.  It holds after `fit` and after every `partial_fit`
+batch, supervised or not; everything the property claims about
+`labels_deep_`, `map_deep` and `predict` follows from it, because column `l` of
+`labels_deep_` is the image of column `l+1` under the map of layer `l`.
+
+Quantifiers: every linear order of activations, every kernel and match-tracking
+configuration *per level* (so: every level-model class, every mode, every
+epsilon, any vigilance values — the ladder is not even needed for nesting, it
+only makes deeper levels finer *before* match tracking has to intervene), any
+number of levels, any data, any labels.  Standing assumption = what
+`validate_data` asserts: every data matrix of a call has as many rows as there
+are labels (`ValidBatch`); unsupervised needs two modules.
+
+An unsupervised hierarchy is an ARTMAP (B-side = module 0 clustering `X[0]`) on
+top of the same chain: its layers *are* the supervised chain on `modules[1:]`
+with the B-side labels as `y` (`unsup_is_chain_on_B_labels`), so the unsupervised
+case is proved in full, as is SMART (`smart_ladder`: definitional).
 -/
-import ArtModel.Basic
+import ArtProofs.Deep
 
 namespace Art.C12
+
+variable {X Wt α μ θ : Type} [LinearOrder α]
+
+/-! ### histories -/
+
+/-- a supervised training call -/
+inductive SupCall (X : Type) where
+  | fit (Xs : List (List X)) (y : List Nat)
+  | pfit (Xs : List (List X)) (y : List Nat)
+
+def SupCall.Valid (k : Nat) : SupCall X → Prop
+  | .fit Xs y => ValidBatch k Xs y
+  | .pfit Xs y => ValidBatch k Xs y
+
+def supStep (Ls : List (Level X Wt α μ θ)) (st : List (SMapState Wt)) : SupCall X → List (SMapState Wt)
+  | .fit Xs y => deepFitSup Ls Xs y
+  | .pfit Xs y => deepPartialFitSup Ls st Xs y
+
+/-- an unsupervised training call -/
+inductive UnsupCall (X : Type) where
+  | fit (Xs : List (List X))
+  | pfit (Xs : List (List X))
+
+/-- the data of a call (valid when `UnsupValid`: at least two matrices, all with the same number of rows) -/
+def UnsupCall.data : UnsupCall X → List (List X)
+  | .fit Xs => Xs
+  | .pfit Xs => Xs
+
+def unsupStep (Ls : List (Level X Wt α μ θ)) (st : Option (DeepUnsup Wt)) : UnsupCall X → Option (DeepUnsup Wt)
+  | .fit Xs => deepFitUnsup Ls Xs
+  | .pfit Xs => deepPartialFitUnsup Ls st Xs
+
+/-! ### the layer invariant -/
+
+/-- what `DeepInv` says, index by index: every layer has a functional, total map
+that reproduces its targets (`MapInv`), consistent bookkeeping, and the targets
+of layer `l+1` are the A-side labels of layer `l`. -/
+theorem deep_inv_meaning {layers : List (SMapState Wt)} (h : DeepInv layers) :
+    (∀ (l : Nat) (s : SMapState Wt), layers[l]? = some s → MapInv s ∧ Consistent s.a) ∧
+    (∀ (l : Nat) (s t : SMapState Wt), layers[l]? = some s → layers[l + 1]? = some t → t.labelsB = s.a.labels) :=
+  ⟨fun _ _ hs => deepInv_getElem? h hs, fun _ _ _ hs ht => deepInv_link h hs ht⟩
+
+/-- **deep_layer_inv**, supervised: after *any* history of valid `fit` /
+`partial_fit` calls (any batching, re-fits included), on any number of levels,
+every layer satisfies `MapInv` and is supervised by exactly the A-side labels of
+the previous layer. -/
+theorem deep_layer_inv (Ls : List (Level X Wt α μ θ)) (calls : List (SupCall X))
+    (hv : ∀ c ∈ calls, c.Valid Ls.length) :
+    DeepInv (calls.foldl (supStep Ls) []) := by
+  suffices H : ∀ st : List (SMapState Wt), DeepInv st → DeepInv (calls.foldl (supStep Ls) st) from
+    H [] trivial
+  induction calls with
+  | nil => intro st h; exact h
+  | cons c cs ih =>
+    intro st h
+    apply ih (fun c' hc' => hv c' (by simp [hc']))
+    have hc := hv c (by simp)
+    cases c with
+    | fit Xs y => exact deepFitSup_inv Ls Xs y hc.2
+    | pfit Xs y => exact deepPartialFitSup_inv Ls st Xs y h hc.2
+
+/-- one valid unsupervised call from a state in good standing (or from no layers) -/
+theorem unsup_step_inv (L0 L1 : Level X Wt α μ θ) (Ls : List (Level X Wt α μ θ))
+    (st : Option (DeepUnsup Wt)) (c : UnsupCall X) (hst : ∀ d, st = some d → UnsupInv d)
+    (hc : UnsupValid c.data) :
+    ∃ d, unsupStep (L0 :: L1 :: Ls) st c = some d ∧ UnsupInv d := by
+  cases c with
+  | fit Xs =>
+    match Xs, hc with
+    | X0 :: X1 :: Xs, hc => exact deepFitUnsup_inv L0 L1 Ls X0 X1 Xs hc
+  | pfit Xs =>
+    match Xs, hc with
+    | X0 :: X1 :: Xs, hc => exact deepPartialFitUnsup_inv L0 L1 Ls st X0 X1 Xs hst hc
+
+/-- **deep_layer_inv**, unsupervised (≥ 2 modules): after any non-empty history of
+valid calls the estimator has layers, they are in good standing, and the
+`labels_` of the ARTMAP layer are the labels of its B-side module. -/
+theorem deep_layer_inv_unsup (L0 L1 : Level X Wt α μ θ) (Ls : List (Level X Wt α μ θ))
+    (c : UnsupCall X) (cs : List (UnsupCall X)) (hv : ∀ c' ∈ c :: cs, UnsupValid c'.data) :
+    ∃ d, (c :: cs).foldl (unsupStep (L0 :: L1 :: Ls)) none = some d ∧ UnsupInv d := by
+  suffices H : ∀ (cs : List (UnsupCall X)) (st : Option (DeepUnsup Wt)) (c : UnsupCall X),
+      (∀ d, st = some d → UnsupInv d) → (∀ c' ∈ c :: cs, UnsupValid c'.data) →
+      ∃ d, (c :: cs).foldl (unsupStep (L0 :: L1 :: Ls)) st = some d ∧ UnsupInv d from
+    H cs none c (by simp) hv
+  intro cs
+  induction cs with
+  | nil =>
+    intro st c hst hv
+    exact unsup_step_inv L0 L1 Ls st c hst (hv c (by simp))
+  | cons c' cs ih =>
+    intro st c hst hv
+    obtain ⟨d, hd, hinv⟩ := unsup_step_inv L0 L1 Ls st c hst (hv c (by simp))
+    simp only [List.foldl_cons] at ih ⊢
+    rw [hd]
+    exact ih (some d) c' (by intro d' e; cases e; exact hinv) (fun c'' h => hv c'' (by simp [h]))
+
+/-- An unsupervised hierarchy is the supervised chain on `modules[1:]`, supervised
+by the B-side clustering of `X[0]`. -/
+theorem unsup_is_chain_on_B_labels (L0 L1 : Level X Wt α μ θ) (Ls : List (Level X Wt α μ θ))
+    (X0 X1 : List X) (Xs : List (List X)) :
+    ∃ d, deepFitUnsup (L0 :: L1 :: Ls) (X0 :: X1 :: Xs) = some d ∧
+      d.top.b = fit L0.K L0.cfg L0.th noVeto {} X0 ∧
+      d.layers = deepFitSup (L1 :: Ls) (X1 :: Xs) (fit L0.K L0.cfg L0.th noVeto {} X0).labels :=
+  deepFitUnsup_layers L0 L1 Ls X0 X1 Xs
+
+/-! ### `labels_deep_` -/
+
+/-- **deep_columns_are_layer_labels.**  `labels_deep_` has one column per layer
+plus one; column `l` is `labels_` of layer `l`, column `l+1` is `labels_a` of
+layer `l` (the labels of that layer's own module) — for *every* layer, not only
+the last one. -/
+theorem deep_columns_are_layer_labels {layers : List (SMapState Wt)} (h : DeepInv layers)
+    (hne : layers ≠ []) :
+    (labelsDeep layers).length = layers.length + 1 ∧
+    ∀ (l : Nat) (s : SMapState Wt), layers[l]? = some s →
+      (labelsDeep layers)[l]? = some s.labelsB ∧ (labelsDeep layers)[l + 1]? = some s.a.labels :=
+  ⟨labelsDeep_length layers hne,
+    fun l s hs => ⟨labelsDeep_getElem?_labelsB layers l s hs, labelsDeep_getElem?_labelsA h l s hs⟩⟩
+
+/-- supervised: column 0 is the supplied label vector (after `fit`) -/
+theorem deep_top_column_is_y (L : Level X Wt α μ θ) (Ls : List (Level X Wt α μ θ))
+    (xs : List X) (Xs : List (List X)) (y : List Nat) (hx : xs.length = y.length) :
+    (labelsDeep (deepFitSup (L :: Ls) (xs :: Xs) y))[0]? = some y := by
+  have e : (deepFitSup (L :: Ls) (xs :: Xs) y)[0]? = some (smapFit L.K L.cfg L.th {} (xs.zip y)) := rfl
+  rw [labelsDeep_getElem?_labelsB _ 0 _ e]
+  have := smapPartialFit_labelsB L.K L.cfg L.th ({} : SMapState Wt) (xs.zip y)
+  simp only [smapFit]
+  rw [this, map_snd_zip_of_length _ _ (by omega)]
+  rfl
+
+/-- unsupervised: column 0 is `module_b.labels_` of the ARTMAP layer -/
+theorem deep_top_column_is_B_labels {d : DeepUnsup Wt} (h : UnsupInv d) :
+    (labelsDeep d.layers)[0]? = some d.top.b.labels := by
+  rw [labelsDeep_getElem?_labelsB d.layers 0 d.top.s rfl, h.top_labels]
+
+/-- **deep_nested.**  For every level `l` and all samples `i`, `j`: sharing the
+label of the finer column `l+1` implies sharing the label of the coarser column
+`l` (and both columns have the same length).  `labels_deep_` describes a tree. -/
+theorem deep_nested {layers : List (SMapState Wt)} (h : DeepInv layers) (l : Nat)
+    (cc cf : List Nat) (hc : (labelsDeep layers)[l]? = some cc)
+    (hf : (labelsDeep layers)[l + 1]? = some cf) :
+    cf.length = cc.length ∧ ∀ i j : Nat, cf[i]? = cf[j]? → cc[i]? = cc[j]? := by
+  obtain ⟨s, hs, rfl, hcc, hmap⟩ := labelsDeep_cols h l cf hf
+  rw [hcc] at hc; cases hc
+  refine ⟨?_, fun i j => nested_of_map_eq hmap i j⟩
+  have := congrArg List.length hmap
+  simpa [mapA2B] using this
+
+/-- nestedness across any number of levels: a finer column determines every coarser one -/
+theorem deep_nested_trans {layers : List (SMapState Wt)} (h : DeepInv layers) (l k : Nat)
+    (cc cf : List Nat) (hc : (labelsDeep layers)[l]? = some cc)
+    (hf : (labelsDeep layers)[l + k]? = some cf) :
+    ∀ i j : Nat, cf[i]? = cf[j]? → cc[i]? = cc[j]? := by
+  induction k generalizing cf with
+  | zero =>
+    simp only [Nat.add_zero] at hf
+    rw [hc] at hf; cases hf
+    exact fun _ _ e => e
+  | succ k ih =>
+    have hf' : (labelsDeep layers)[l + k + 1]? = some cf := by simpa [Nat.add_assoc] using hf
+    obtain ⟨s, hs, rfl, hcc, hmap⟩ := labelsDeep_cols h (l + k) cf hf'
+    intro i j e
+    exact ih s.labelsB hcc i j (nested_of_map_eq hmap i j e)
+
+/-- **deep_counts_monotone.**  The number of distinct labels never decreases with depth. -/
+theorem deep_counts_monotone {layers : List (SMapState Wt)} (h : DeepInv layers) (l : Nat)
+    (cc cf : List Nat) (hc : (labelsDeep layers)[l]? = some cc)
+    (hf : (labelsDeep layers)[l + 1]? = some cf) :
+    cc.toFinset.card ≤ cf.toFinset.card := by
+  obtain ⟨s, hs, rfl, hcc, hmap⟩ := labelsDeep_cols h l cf hf
+  rw [hcc] at hc; cases hc
+  exact card_le_of_map_eq hmap
+
+/-- … and neither does the number of categories of the modules: the distinct
+labels of a module's column are exactly its categories. -/
+theorem deep_category_counts_monotone {layers : List (SMapState Wt)} (h : DeepInv layers) (l : Nat)
+    (s t : SMapState Wt) (hs : layers[l]? = some s) (ht : layers[l + 1]? = some t) :
+    s.a.labels.toFinset.card = s.a.W.length ∧ s.a.W.length ≤ t.a.W.length := by
+  have hs' := (deepInv_getElem? h hs).2
+  have ht' := (deepInv_getElem? h ht)
+  refine ⟨distinct_labels_eq_categories hs', ?_⟩
+  rw [← distinct_labels_eq_categories hs', ← distinct_labels_eq_categories ht'.2,
+    ← deepInv_link h hs ht]
+  exact card_le_of_map_eq (mapInv_mapA2B ht'.1)
+
+/-! ### `map_deep` -/
+
+/-- the level `map_deep` works at after normalising a negative index -/
+def normLevel (n : Nat) (level : Int) : Nat := (if level < 0 then level + n else level).toNat
+
+/-- **map_deep_consistent.**  For every level in `-n_layers ≤ level < n_layers`
+(negative = counted from the last layer), `map_deep(level, ·)` carries the column
+below that layer to the stored TOP-level labels (column 0) — exactly what
+`map_deep` returns. -/
+theorem map_deep_consistent {layers : List (SMapState Wt)} (h : DeepInv layers) (level : Int)
+    (hlo : -(layers.length : Int) ≤ level) (hhi : level < layers.length)
+    (cf c0 : List Nat) (hf : (labelsDeep layers)[normLevel layers.length level + 1]? = some cf)
+    (h0 : (labelsDeep layers)[0]? = some c0) :
+    mapDeep layers level cf = some c0 := by
+  obtain ⟨s, hs, rfl, _, _⟩ := labelsDeep_cols h _ cf hf
+  have hne : layers ≠ [] := by intro e; rw [e] at hs; simp at hs
+  obtain ⟨top, htop⟩ : ∃ top, layers[0]? = some top :=
+    ⟨layers[0]'(List.length_pos_iff.mpr hne), List.getElem?_eq_getElem _⟩
+  rw [labelsDeep_getElem?_labelsB layers 0 top htop] at h0; cases h0
+  have key := mapDeepNat_column h _ s hs top htop
+  by_cases hneg : level < 0
+  · obtain ⟨k, rfl⟩ : ∃ k : Nat, level = -(k : Int) := ⟨(-level).toNat, by omega⟩
+    have hk : 0 < k := by omega
+    have hkl : k ≤ layers.length := by omega
+    rw [mapDeep_neg layers k hk hkl]
+    have : normLevel layers.length (-(k : Int)) = layers.length - k := by
+      unfold normLevel; simp only [hneg, if_true]; omega
+    rw [this] at key; exact key
+  · obtain ⟨k, rfl⟩ : ∃ k : Nat, level = (k : Int) := ⟨level.toNat, by omega⟩
+    rw [mapDeep_nonneg]
+    have : normLevel layers.length (k : Int) = k := by
+      unfold normLevel; simp only [hneg, if_false]; omega
+    rw [this] at key; exact key
+
+/-- `map_deep` on a scalar label: the label that sample `i` carries below the
+layer is sent to the top-level label of sample `i`. -/
+theorem map_deep_consistent_label {layers : List (SMapState Wt)} (h : DeepInv layers) (level : Int)
+    (hlo : -(layers.length : Int) ≤ level) (hhi : level < layers.length)
+    (cf c0 : List Nat) (hf : (labelsDeep layers)[normLevel layers.length level + 1]? = some cf)
+    (h0 : (labelsDeep layers)[0]? = some c0) (i c y : Nat) (hc : cf[i]? = some c) (hy : c0[i]? = some y) :
+    mapDeepLabel layers level c = some y := by
+  obtain ⟨s, hs, rfl, _, _⟩ := labelsDeep_cols h _ cf hf
+  have hne : layers ≠ [] := by intro e; rw [e] at hs; simp at hs
+  obtain ⟨top, htop⟩ : ∃ top, layers[0]? = some top :=
+    ⟨layers[0]'(List.length_pos_iff.mpr hne), List.getElem?_eq_getElem _⟩
+  rw [labelsDeep_getElem?_labelsB layers 0 top htop] at h0; cases h0
+  have key := mapDeepNat_label h _ s hs top htop i c y hc hy
+  unfold mapDeepLabel
+  by_cases hneg : level < 0
+  · obtain ⟨k, rfl⟩ : ∃ k : Nat, level = -(k : Int) := ⟨(-level).toNat, by omega⟩
+    have hk : 0 < k := by omega
+    have hkl : k ≤ layers.length := by omega
+    rw [mapDeep_neg layers k hk hkl]
+    have : normLevel layers.length (-(k : Int)) = layers.length - k := by
+      unfold normLevel; simp only [hneg, if_true]; omega
+    rw [this] at key; rw [key]; rfl
+  · obtain ⟨k, rfl⟩ : ∃ k : Nat, level = (k : Int) := ⟨level.toNat, by omega⟩
+    rw [mapDeep_nonneg]
+    have : normLevel layers.length (k : Int) = k := by
+      unfold normLevel; simp only [hneg, if_false]; omega
+    rw [this] at key; rw [key]; rfl
+
+/-! ### `predict` -/
+
+/-- **predict_nested.**  When the last module has a category, `predict` returns
+`n_layers + 1` vectors with one label per query; the prediction at level `l` is
+the image of the prediction at level `l+1` under the map of layer `l` — the same
+maps that link the training columns — hence the predictions are nested exactly
+like `labels_deep_`, and every label predicted at level `l` occurs in column `l`
+of the training labels. -/
+theorem predict_nested (K : Kernel X Wt α μ) {layers : List (SMapState Wt)} (h : DeepInv layers)
+    (last : SMapState Wt) (hlast : layers.getLast? = some last) (hne : last.a.W ≠ []) (xs : List X) :
+    ∃ cols, deepPredict K layers xs = some cols ∧ cols.length = layers.length + 1 ∧
+      (∀ p ∈ cols, p.length = xs.length) ∧
+      (∀ (l : Nat) (s : SMapState Wt), layers[l]? = some s → ∃ pf pc, cols[l + 1]? = some pf ∧
+        cols[l]? = some pc ∧ mapA2B s.map pf = pc.map some ∧
+        ∀ i j : Nat, pf[i]? = pf[j]? → pc[i]? = pc[j]?) ∧
+      (∀ (l : Nat) (p : List Nat), cols[l]? = some p →
+        ∃ tc, (labelsDeep layers)[l]? = some tc ∧ ∀ c ∈ p, c ∈ tc) := by
+  obtain ⟨cols, h1, h2, h3, h4, h5⟩ := deepPredict_spec K h last hlast hne xs
+  refine ⟨cols, h1, h2, h3, ?_, h5⟩
+  intro l s hs
+  obtain ⟨pf, pc, a, b, c⟩ := h4 l s hs
+  exact ⟨pf, pc, a, b, c, fun i j => nested_of_map_eq c i j⟩
+
+/-! ### batching -/
+
+/-- **deep_partial_fit_eq_fit**, supervised: two `partial_fit` batches on an
+estimator without layers equal `fit` on the concatenated data — every layer's
+weights, labels and map. -/
+theorem deep_partial_fit_eq_fit (Ls : List (Level X Wt α μ θ)) (Xs₁ Xs₂ : List (List X))
+    (y₁ y₂ : List Nat) (h₁ : ValidBatch Ls.length Xs₁ y₁) (h₂ : ValidBatch Ls.length Xs₂ y₂) :
+    deepPartialFitSup Ls (deepPartialFitSup Ls [] Xs₁ y₁) Xs₂ y₂ =
+      deepFitSup Ls (List.zipWith (· ++ ·) Xs₁ Xs₂) (y₁ ++ y₂) := by
+  rw [deepPartialFitSup_two_batches Ls [] Xs₁ Xs₂ y₁ y₂ (Or.inl rfl) h₁ h₂]
+  apply deepPartialFitSup_fresh
+  have := zipWith_append_length y₁.length y₂.length Xs₁ Xs₂ h₁.2 h₂.2
+  simpa using this
+
+/-- from any state: two batches equal one batch of the concatenation -/
+theorem deep_two_batches (Ls : List (Level X Wt α μ θ)) (st : List (SMapState Wt))
+    (Xs₁ Xs₂ : List (List X)) (y₁ y₂ : List Nat) (hst : st = [] ∨ st.length = Ls.length)
+    (h₁ : ValidBatch Ls.length Xs₁ y₁) (h₂ : ValidBatch Ls.length Xs₂ y₂) :
+    deepPartialFitSup Ls (deepPartialFitSup Ls st Xs₁ y₁) Xs₂ y₂ =
+      deepPartialFitSup Ls st (List.zipWith (· ++ ·) Xs₁ Xs₂) (y₁ ++ y₂) :=
+  deepPartialFitSup_two_batches Ls st Xs₁ Xs₂ y₁ y₂ hst h₁ h₂
+
+/-- **deep_partial_fit_eq_fit**, unsupervised. -/
+theorem deep_partial_fit_eq_fit_unsup (L0 L1 : Level X Wt α μ θ) (Ls : List (Level X Wt α μ θ))
+    (X0 X1 Y0 Y1 : List X) (Xs Ys : List (List X))
+    (hX : ∀ xs ∈ X1 :: Xs, xs.length = X0.length) (hY : ∀ xs ∈ Y1 :: Ys, xs.length = Y0.length) :
+    deepPartialFitUnsup (L0 :: L1 :: Ls)
+      (deepPartialFitUnsup (L0 :: L1 :: Ls) none (X0 :: X1 :: Xs)) (Y0 :: Y1 :: Ys) =
+    deepFitUnsup (L0 :: L1 :: Ls) (List.zipWith (· ++ ·) (X0 :: X1 :: Xs) (Y0 :: Y1 :: Ys)) := by
+  rw [deepPartialFitUnsup_two_batches L0 L1 Ls none X0 X1 Y0 Y1 Xs Ys hX hY]
+  simp only [List.zipWith_cons_cons]
+  apply deepPartialFitUnsup_fresh
+  intro xs hxs
+  simp only [List.mem_cons] at hxs
+  rcases hxs with rfl | hxs
+  · simp [hX X1 (by simp), hY Y1 (by simp)]
+  · have := zipWith_append_length X0.length Y0.length Xs Ys
+      (fun xs h => hX xs (by simp [h])) (fun xs h => hY xs (by simp [h])) xs hxs
+    simpa using this
+
+/-- **Any batching**, supervised: any non-empty sequence of valid `partial_fit`
+batches on an estimator without layers equals `fit` on the concatenated data
+(`mergeXs` concatenates matrix by matrix). -/
+theorem deep_batching_irrelevant (Ls : List (Level X Wt α μ θ))
+    (b : List (List X) × List Nat) (bs : List (List (List X) × List Nat))
+    (hv : ∀ b' ∈ b :: bs, ValidBatch Ls.length b'.1 b'.2) :
+    (b :: bs).foldl (fun st b' => deepPartialFitSup Ls st b'.1 b'.2) [] =
+      deepFitSup Ls (bs.foldl (fun a c => (mergeXs a.1 c.1, a.2 ++ c.2)) b).1
+        (bs.foldl (fun a c => (mergeXs a.1 c.1, a.2 ++ c.2)) b).2 := by
+  suffices H : ∀ (bs : List (List (List X) × List Nat)) (b : List (List X) × List Nat)
+      (st : List (SMapState Wt)), (st = [] ∨ st.length = Ls.length) →
+      (∀ b' ∈ b :: bs, ValidBatch Ls.length b'.1 b'.2) →
+      (b :: bs).foldl (fun st b' => deepPartialFitSup Ls st b'.1 b'.2) st =
+        deepPartialFitSup Ls st (bs.foldl (fun a c => (mergeXs a.1 c.1, a.2 ++ c.2)) b).1
+          (bs.foldl (fun a c => (mergeXs a.1 c.1, a.2 ++ c.2)) b).2 ∧
+      ValidBatch Ls.length (bs.foldl (fun a c => (mergeXs a.1 c.1, a.2 ++ c.2)) b).1
+          (bs.foldl (fun a c => (mergeXs a.1 c.1, a.2 ++ c.2)) b).2 by
+    obtain ⟨h1, h2⟩ := H bs b [] (Or.inl rfl) hv
+    rw [h1]
+    exact deepPartialFitSup_fresh Ls _ _ h2.2
+  intro bs
+  induction bs with
+  | nil => intro b st _ hv; exact ⟨rfl, hv b (by simp)⟩
+  | cons b' bs ih =>
+    intro b st hst hv
+    have hb := hv b (by simp)
+    have hb' := hv b' (by simp)
+    have hm := validBatch_merge Ls.length b.1 b'.1 b.2 b'.2 hb hb'
+    have := ih (mergeXs b.1 b'.1, b.2 ++ b'.2) st hst (by
+      intro c hc
+      simp only [List.mem_cons] at hc
+      rcases hc with rfl | hc
+      · exact hm
+      · exact hv c (by simp [hc]))
+    simp only [List.foldl_cons] at this ⊢
+    rw [deepPartialFitSup_two_batches Ls st b.1 b'.1 b.2 b'.2 hst hb hb']
+    exact this
+
+/-- **Any batching**, unsupervised. -/
+theorem deep_batching_irrelevant_unsup (L0 L1 : Level X Wt α μ θ) (Ls : List (Level X Wt α μ θ))
+    (b : List (List X)) (bs : List (List (List X))) (hv : ∀ b' ∈ b :: bs, UnsupValid b') :
+    (b :: bs).foldl (deepPartialFitUnsup (L0 :: L1 :: Ls)) none =
+      deepFitUnsup (L0 :: L1 :: Ls) (bs.foldl mergeXs b) := by
+  suffices H : ∀ (bs : List (List (List X))) (b : List (List X)) (st : Option (DeepUnsup Wt)),
+      (∀ b' ∈ b :: bs, UnsupValid b') →
+      (b :: bs).foldl (deepPartialFitUnsup (L0 :: L1 :: Ls)) st =
+        deepPartialFitUnsup (L0 :: L1 :: Ls) st (bs.foldl mergeXs b) ∧ UnsupValid (bs.foldl mergeXs b) by
+    obtain ⟨h1, h2⟩ := H bs b none hv
+    rw [h1]
+    exact deepPartialFitUnsup_fresh' L0 L1 Ls _ h2
+  intro bs
+  induction bs with
+  | nil => intro b st hv; exact ⟨rfl, hv b (by simp)⟩
+  | cons b' bs ih =>
+    intro b st hv
+    have hb := hv b (by simp)
+    have hb' := hv b' (by simp)
+    have := ih (mergeXs b b') st (by
+      intro c hc
+      simp only [List.mem_cons] at hc
+      rcases hc with rfl | hc
+      · exact unsupValid_merge b b' hb hb'
+      · exact hv c (by simp [hc]))
+    simp only [List.foldl_cons] at this ⊢
+    rw [deepPartialFitUnsup_merge L0 L1 Ls st b b' hb hb']
+    exact this
+
+/-! ### SMART -/
+
+/-- **smart_ladder.**  SMART is the unsupervised hierarchy on `[X] * n_modules`
+whose modules differ only in their vigilance (definitional). -/
+theorem smart_ladder (K : Kernel X Wt α μ) (cfg : SearchCfg μ θ) (rhos : List θ) (xs : List X) :
+    smartFit K cfg rhos xs =
+      deepFitUnsup (rhos.map (fun rho => ({ K := K, cfg := cfg, th := rho } : Level X Wt α μ θ)))
+        (List.replicate rhos.length xs) ∧
+    ∀ st, smartPartialFit K cfg rhos st xs =
+      deepPartialFitUnsup (rhos.map (fun rho => ({ K := K, cfg := cfg, th := rho } : Level X Wt α μ θ)))
+        st (List.replicate rhos.length xs) :=
+  ⟨rfl, fun _ => rfl⟩
+
+/-- hence a fitted SMART (≥ 2 vigilance values, any values) is in good standing:
+all of the above applies to it. -/
+theorem smart_inv (K : Kernel X Wt α μ) (cfg : SearchCfg μ θ) (r0 r1 : θ) (rs : List θ) (xs : List X) :
+    ∃ d, smartFit K cfg (r0 :: r1 :: rs) xs = some d ∧ UnsupInv d := by
+  have := deepFitUnsup_inv (⟨K, cfg, r0⟩ : Level X Wt α μ θ) ⟨K, cfg, r1⟩
+    (smartLevels K cfg rs) xs xs (List.replicate rs.length xs) (by
+      intro ys hy
+      simp only [List.mem_cons, List.mem_replicate] at hy
+      rcases hy with rfl | ⟨_, rfl⟩ <;> rfl)
+  simpa [smartFit, smartLevels, List.replicate_succ] using this
+
+/-! ### Non-vacuity: 3 levels, 5 samples, a 1-D "nearest centre" kernel on ℤ with
+match value −distance; vigilance ladder −4 < −1 < 0 (coarse to fine). -/
+
+private def K0 : Kernel Int Int Int Int :=
+  { choice := fun _ x w => some (-(x - w).natAbs), matchv := fun x w => -(x - w).natAbs,
+    update := fun _ w => w, newW := fun x => x }
+private def cfg0 : SearchCfg Int Int := scalarCfg .plus false (· + 1) (· - 1) 1000
+private def Ls0 : List (Level Int Int Int Int Int) := [⟨K0, cfg0, -4⟩, ⟨K0, cfg0, -1⟩, ⟨K0, cfg0, 0⟩]
+private def X0 : List Int := [0, 1, 3, 10, 11]
+
+/-- supervised, classes 0/1: the class boundary splits the coarse cluster {0,1,3} -/
+example : labelsDeep (deepFitSup Ls0 [X0, X0, X0] [0, 0, 1, 1, 1]) =
+    [[0, 0, 1, 1, 1], [0, 0, 1, 2, 2], [0, 0, 1, 2, 2], [0, 1, 2, 3, 4]] := by decide
+example : (deepFitSup Ls0 [X0, X0, X0] [0, 0, 1, 1, 1]).map (·.map) =
+    [[some 0, some 1, some 1], [some 0, some 1, some 2], [some 0, some 0, some 1, some 2, some 2]] := by
+  decide
+example : mapDeep (deepFitSup Ls0 [X0, X0, X0] [0, 0, 1, 1, 1]) (-1) [0, 1, 2, 3, 4] = some [0, 0, 1, 1, 1] := by
+  decide
+example : mapDeepLabel (deepFitSup Ls0 [X0, X0, X0] [0, 0, 1, 1, 1]) 2 3 = some 1 := by decide
+example : deepPredict K0 (deepFitSup Ls0 [X0, X0, X0] [0, 0, 1, 1, 1]) [2, 12] =
+    some [[0, 1], [0, 2], [0, 2], [1, 4]] := by decide
+/-- two batches (2 + 3 samples) give the same hierarchy as `fit` -/
+example : (deepPartialFitSup Ls0 (deepPartialFitSup Ls0 [] [[0, 1], [0, 1], [0, 1]] [0, 0])
+      [[3, 10, 11], [3, 10, 11], [3, 10, 11]] [1, 1, 1]).map (fun s => (s.a.W, s.a.labels, s.map, s.labelsB)) =
+    (deepFitSup Ls0 [X0, X0, X0] [0, 0, 1, 1, 1]).map (fun s => (s.a.W, s.a.labels, s.map, s.labelsB)) := by
+  decide
+/-- SMART / unsupervised on the same data: 3 modules = 3 levels -/
+example : (smartFit K0 cfg0 [-4, -1, 0] X0).map (fun d => labelsDeep d.layers) =
+    some [[0, 0, 0, 1, 1], [0, 0, 1, 2, 2], [0, 1, 2, 3, 4]] := by decide
+example : ValidBatch Ls0.length [X0, X0, X0] [0, 0, 1, 1, 1] := ⟨rfl, by decide⟩
 
 end Art.C12
